@@ -14,6 +14,10 @@ Definition xitems (l : list xev) : list item :=
 Definition lhand (x : mspc) : list item :=
   match x with LCas e | LWait e | LWrite e => xitems [fst e] | _ => [] end.
 
+(* the socket item a handler holds while it empties the queue, then the items still on the connection *)
+Definition kheld (c : mcpc) : list item := match c with KFbH x | KFbT x | KFbInc x => [x] | _ => [] end.
+Definition sockpart (st : mst) : list item := kheld (mcons st) ++ xitems (msock st).
+
 Definition valid (pr : list mlocal) (x : item) : Prop :=
   exists p, nth_error pr (fst x) = Some p /\
             match snd x with DData k => k < nxt p | DEnd => closed p = true end.
@@ -26,7 +30,7 @@ Fixpoint end_last (s : nat) (l : list item) : Prop :=
 
 Record MInv (st : mst) : Prop := {
   m_fq : projV VQ (deliv st) ++ queue st = projV VQ (flog st);
-  m_fs : projV VS (deliv st) ++ xitems (msock st) ++ lhand (msl st) ++ xitems (map fst (msendch st))
+  m_fs : projV VS (deliv st) ++ sockpart st ++ lhand (msl st) ++ xitems (map fst (msendch st))
          = projV VS (flog st);
   m_valid : forall x, In x (map fst (flog st)) -> valid (mprods st) x;
   m_nodup : NoDup (map fst (flog st));
@@ -103,7 +107,7 @@ Qed.
 (* a step that hands nothing to a transport and delivers nothing *)
 Lemma inv_pc_only st i p p' :
   MInv st -> nth_error (mprods st) i = Some p -> nxt p <= nxt p' -> (closed p = true -> closed p' = true) ->
-  forall st', queue st' = queue st -> xitems (msock st') = xitems (msock st) -> msl st' = msl st ->
+  forall st', queue st' = queue st -> sockpart st' = sockpart st -> msl st' = msl st ->
               xitems (map fst (msendch st')) = xitems (map fst (msendch st)) ->
               flog st' = flog st -> deliv st' = deliv st -> mprods st' = set_nth i p' (mprods st) ->
               MInv st'.
@@ -120,7 +124,7 @@ Lemma inv_put st i p p' x v :
   nxt p <= nxt p' -> (closed p = true -> closed p' = true) ->
   match snd x with DData k => k < nxt p' | DEnd => closed p' = true end ->
   forall st', flog st' = flog st ++ [(x, v)] -> deliv st' = deliv st -> mprods st' = set_nth i p' (mprods st) ->
-              msock st' = msock st -> msl st' = msl st ->
+              sockpart st' = sockpart st -> msl st' = msl st ->
               (match v with
                | VQ => queue st' = queue st ++ [x] /\ msendch st' = msendch st
                | VS => queue st' = queue st /\ exists o, msendch st' = msendch st ++ [(XItem x, o)]
@@ -148,10 +152,10 @@ Qed.
 Ltac pc_only H Hp q :=
   apply (inv_pc_only _ _ _ q H Hp); simpl;
   first [ reflexivity | lia | solve [intros; congruence] | solve [auto]
-        | (rewrite ?map_app, ?xitems_app; simpl; rewrite ?app_nil_r; reflexivity) ].
+        | (unfold sockpart; simpl; rewrite ?map_app, ?xitems_app; simpl; rewrite ?app_nil_r; reflexivity) ].
 
 Ltac put_tac H Hp Ecl :=
-  simpl; try reflexivity;
+  unfold sockpart; simpl; try reflexivity;
   try solve [eapply fresh_data; eauto]; try solve [eapply fresh_end; eauto];
   try lia; try congruence; try solve [split; eauto].
 
@@ -185,7 +189,7 @@ Proof.
 Qed.
 
 Lemma inv_same st st' :
-  MInv st -> queue st' = queue st -> xitems (msock st') = xitems (msock st) ->
+  MInv st -> queue st' = queue st -> sockpart st' = sockpart st ->
   lhand (msl st') ++ xitems (map fst (msendch st')) = lhand (msl st) ++ xitems (map fst (msendch st)) ->
   flog st' = flog st -> deliv st' = deliv st -> mprods st' = mprods st -> MInv st'.
 Proof.
@@ -199,27 +203,38 @@ Ltac rw_eqs :=
          | E : queue _ = _ |- _ => rewrite E
          | E : msendch _ = _ |- _ => rewrite E
          | E : msl _ = _ |- _ => rewrite E
+         | E : mcons _ = _ |- _ => rewrite E
          end.
-Ltac same H := apply (inv_same _ _ H); simpl; rw_eqs; rewrite ?xitems_app, ?app_nil_r; simpl; rewrite ?app_nil_r; reflexivity.
+Ltac same H := apply (inv_same _ _ H); unfold sockpart; simpl; rw_eqs; rewrite ?xitems_app, ?app_nil_r; simpl; rewrite ?app_nil_r; reflexivity.
 
 Lemma mcstep_inv st : MInv st -> MInv (mcstep st).
 Proof.
   intros H. unfold mcstep. destruct (mcons st) eqn:Ec.
-  - destruct (msock st) as [|[|x] r] eqn:Es; [exact H | same H |].
-    (* a fallback / stream-close event reaches its stream *)
-    destruct H as [Hfq Hfs Hv Hnd He]. constructor; simpl; auto.
-    + rewrite projV_app. unfold projV at 2; simpl. rewrite app_nil_r. exact Hfq.
-    + rewrite projV_app. unfold projV at 2; simpl. rewrite <- Hfs, Es. simpl. rewrite <- !app_assoc. reflexivity.
+  - destruct (msock st) as [|[|x] r] eqn:Es; [exact H | same H | same H].
   - same H.
   - destruct (queue st); same H.
   - destruct (queue st) as [|x q] eqn:Eq; [same H|].
     destruct H as [Hfq Hfs Hv Hnd He]. constructor; simpl; auto.
     + rewrite projV_app. unfold projV at 2; simpl. rewrite <- Hfq, Eq, <- !app_assoc. reflexivity.
-    + rewrite projV_app. unfold projV at 2; simpl. rewrite app_nil_r. exact Hfs.
+    + rewrite projV_app. unfold projV at 2; simpl. rewrite app_nil_r.
+      unfold sockpart in *. simpl. rewrite Ec in Hfs. exact Hfs.
   - same H.
   - same H.
   - destruct empty; same H.
   - same H.
+  - same H.
+  - (* KFbT: the queue is empty: the held socket item reaches its stream *)
+    destruct (queue st) as [|e q] eqn:Eq; [|same H].
+    destruct H as [Hfq Hfs Hv Hnd He]. constructor; simpl; auto.
+    + rewrite projV_app. unfold projV at 2; simpl. rewrite app_nil_r, <- Hfq, Eq. reflexivity.
+    + rewrite projV_app. unfold projV at 2; simpl.
+      unfold sockpart in *. simpl. rewrite Ec in Hfs. simpl in Hfs. rewrite <- Hfs, <- !app_assoc. reflexivity.
+  - (* KFbInc: pop in front of the held item *)
+    destruct (queue st) as [|e q] eqn:Eq; [same H|].
+    destruct H as [Hfq Hfs Hv Hnd He]. constructor; simpl; auto.
+    + rewrite projV_app. unfold projV at 2; simpl. rewrite <- Hfq, Eq, <- !app_assoc. reflexivity.
+    + rewrite projV_app. unfold projV at 2; simpl. rewrite app_nil_r.
+      unfold sockpart in *. simpl. rewrite Ec in Hfs. exact Hfs.
 Qed.
 
 Lemma msstep_inv st : MInv st -> MInv (msstep st).
@@ -230,7 +245,7 @@ Proof.
   - destruct (mwriting st); apply (inv_same _ _ H); simpl; rewrite ?El; reflexivity.
   - destruct (mnotif st); [|exact H]. apply (inv_same _ _ H); simpl; rewrite ?El; reflexivity.
   - destruct H as [Hfq Hfs Hv Hnd He]. constructor; simpl; auto.
-    rewrite <- Hfs, El, xitems_app. simpl. rewrite <- !app_assoc. reflexivity.
+    unfold sockpart in *. simpl. rewrite <- Hfs, El, xitems_app. simpl. rewrite <- !app_assoc. reflexivity.
   - apply (inv_same _ _ H); simpl; rewrite ?El; reflexivity.
 Qed.
 
@@ -377,7 +392,7 @@ Proof.
   subst l2. rewrite El, map_app, rev_app_distr. simpl. apply Nat.eqb_refl.
 Qed.
 
-(* ---------- the full order statement is false of the model: two witnesses ---------- *)
+(* ---------- regression runs: the former witnesses against the order statement ---------- *)
 Definition order_full : Prop :=
   forall progs sched s, ordered s (mrun sched (minit progs)) = true.
 
@@ -385,47 +400,42 @@ Definition rP i n := repeat (WProd i) n.
 Definition rC n := repeat WCons n.
 Definition rS n := repeat WSend n.
 
-(* (a) — REPAIRED by "close through the socket when the stream is in fallback state" — the former
-   witness: one stream; m0 through the queue (polling event written, not yet handled), shared memory
-   exhausted: m1 through the socket, close.  Before the repair the close element went through the queue
-   (markWorking fails, the flag is still up) and the consumer delivered m0, END, m1.  Now the close event
-   follows m1 on the socket; the same history is delivered in order (regression example). *)
+(* (a) — repaired by "close through the socket when the stream is in fallback state" (c91430a):
+   m0 through the queue (polling event written, not yet handled), shared memory exhausted: m1 through the
+   socket, close.  Formerly the close element went through the queue and the consumer delivered
+   m0, END, m1; now the close event follows m1 on the socket. *)
 Definition wit_a_progs := [[OFlush true false; OFlush false false; OClose false]].
-Definition wit_a_sched := rP 0 6 ++ rP 0 1 ++ rS 4 ++ rP 0 1 ++ rP 0 1 ++ rC 30 ++ rS 5 ++ rP 0 1 ++ rC 5.
+Definition wit_a_sched := rP 0 6 ++ rP 0 1 ++ rS 4 ++ rP 0 1 ++ rP 0 1 ++ rC 40 ++ rS 5 ++ rP 0 1 ++ rC 8.
 Lemma reg_a :
   let st := mrun wit_a_sched (minit wit_a_progs) in
   seen 0 st = [DData 0; DData 1; DEnd] /\ sent 0 st = [DData 0; DData 1; DEnd] /\ ordered 0 st = true /\
   map snd (flog st) = [VQ; VS; VS].
 Proof. vm_compute. repeat split. Qed.
 
-(* (b) a fallback event overtakes an unpublished wake-up: writer 0 wins markWorking and is pre-empted
-   before it writes the polling event; writer 1 puts b0 (markWorking fails: no event), then flushes b1
-   through the socket; the fallback event precedes writer 0's polling event: b1 is delivered before b0. *)
+(* (b) — repaired by "empty the queue before a socket item is handed to its stream": writer 0 wins
+   markWorking and is pre-empted before it writes the polling event; writer 1 puts b0 (markWorking fails:
+   no event), then flushes b1 through the socket.  Formerly b1 was delivered before b0.  Now the handler of
+   the fallback event pops a0 and b0 first: already while writer 0 is still paused (first run below) stream 1
+   has received b0, b1 in this order. *)
 Definition wit_b_progs := [[OFlush true false]; [OFlush true false; OFlush false false]].
-Definition wit_b_sched := rP 0 2 ++ rP 1 2 ++ rP 1 1 ++ rS 4 ++ rP 1 1 ++ rP 0 4 ++ rC 30.
-Lemma wit_b :
-  let st := mrun wit_b_sched (minit wit_b_progs) in
-  seen 1 st = [DData 1; DData 0] /\ sent 1 st = [DData 0; DData 1] /\ ordered 1 st = false.
+Definition wit_b_paused := rP 0 2 ++ rP 1 2 ++ rP 1 1 ++ rS 4 ++ rP 1 1 ++ rC 12.
+Definition wit_b_sched := wit_b_paused ++ rP 0 4 ++ rC 30.
+Lemma reg_b :
+  (let st := mrun wit_b_paused (minit wit_b_progs) in
+   map mpc_ (mprods st) = [MWr; MIdle] /\ seen 1 st = [DData 0; DData 1] /\ seen 0 st = [DData 0]) /\
+  (let st := mrun wit_b_sched (minit wit_b_progs) in
+   seen 1 st = [DData 0; DData 1] /\ sent 1 st = [DData 0; DData 1] /\ ordered 1 st = true /\ ordered 0 st = true).
 Proof. vm_compute. repeat split. Qed.
 
-(* (b') inside the same window the end mark of a stream that switched transport is overtaken too: the
-   close event (socket) and the fallback data pass b0, which still waits in the queue for writer 0's
-   polling event.  This is the only way left (see order_without_window in MuxOrderProofs.v). *)
+(* (b') the same window with a close: formerly (after the repair of (a) alone) b1, END, b0 *)
 Definition wit_e_progs := [[OFlush true false]; [OFlush true false; OFlush false false; OClose false]].
-Definition wit_e_sched := rP 0 2 ++ rP 1 2 ++ rP 1 1 ++ rS 4 ++ rP 1 1 ++ rP 1 1 ++ rS 5 ++ rP 1 1 ++ rP 0 4 ++ rC 30.
-Lemma wit_e :
+Definition wit_e_sched := rP 0 2 ++ rP 1 2 ++ rP 1 1 ++ rS 4 ++ rP 1 1 ++ rP 1 1 ++ rS 5 ++ rP 1 1 ++ rC 20 ++ rP 0 4 ++ rC 30.
+Lemma reg_e :
   let st := mrun wit_e_sched (minit wit_e_progs) in
-  seen 1 st = [DData 1; DEnd; DData 0] /\ sent 1 st = [DData 0; DData 1; DEnd] /\ ordered 1 st = false.
+  seen 1 st = [DData 0; DData 1; DEnd] /\ sent 1 st = [DData 0; DData 1; DEnd] /\ ordered 1 st = true.
 Proof. vm_compute. repeat split. Qed.
 
-Theorem order_refuted : ~ order_full.
-Proof.
-  intros Hf.
-  assert (E : ordered 1 (mrun wit_b_sched (minit wit_b_progs)) = false) by (vm_compute; reflexivity).
-  rewrite (Hf wit_b_progs wit_b_sched 1) in E. discriminate E.
-Qed.
-
-(* non-vacuity of the partial theorem: stream 0 uses only the queue, stream 1 only the socket (falls
-   back from its first message, closed through the socket because the queue is full) *)
+(* non-vacuity of the single-transport theorem: stream 0 uses only the queue, stream 1 only the socket
+   (falls back from its first message, closed through the socket) *)
 Definition ex_progs := [[OFlush true false; OFlush true false; OClose false]; [OFlush false false; OFlush true false; OClose true]].
-Definition ex_sched := rP 0 6 ++ rP 1 1 ++ rS 5 ++ rP 1 2 ++ rP 0 2 ++ rS 5 ++ rP 1 2 ++ rC 12 ++ rS 5 ++ rP 1 1 ++ rP 0 6 ++ rC 40.
+Definition ex_sched := rP 0 6 ++ rP 1 1 ++ rS 5 ++ rP 1 2 ++ rP 0 2 ++ rS 5 ++ rP 1 2 ++ rC 20 ++ rS 5 ++ rP 1 1 ++ rP 0 6 ++ rC 40.
